@@ -96,7 +96,8 @@ Definition w_zero : nv :=
   (mknv (Some (s2l "n")) None (Some (mkinst (Some (s2l "top")) None (Some ((Some (s2l "top")), (Some (s2l "work")))) None)) [(mklib (Some (s2l "work")) None [(mkdefn (Some (s2l "LEAF")) None [(mkport (Some (s2l "a")) None DIn false 1 (0)%Z); (mkport (Some (s2l "b")) None DOut true 2 (0)%Z)] [] []); (mkdefn (Some (s2l "LEAF2")) None [(mkport (Some (s2l "a")) None DIn false 1 (0)%Z); (mkport (Some (s2l "b")) None DOut true 2 (0)%Z)] [] []); (mkdefn (Some (s2l "top")) None [(mkport (Some (s2l "i")) None DIn false 1 (0)%Z); (mkport (Some (s2l "z0")) None DIn false 0 (0)%Z)] [(mkcable (Some (s2l "c")) None [[(PIn (Some (s2l "i")) 0); (POut (Some (s2l "u0")) (Some (s2l "a")) 0)]]); (mkcable (Some (s2l "k")) None [[(POut (Some (s2l "u0")) (Some (s2l "b")) 0); (POut (Some (s2l "u1")) (Some (s2l "a")) 0)]; []])] [(mkinst (Some (s2l "u0")) None (Some ((Some (s2l "LEAF")), (Some (s2l "work")))) (Some [[((s2l "identifier"), (PStr (s2l "INIT"))); ((s2l "value"), (PStr (s2l "abc")))]])); (mkinst (Some (s2l "u1")) None (Some ((Some (s2l "LEAF")), (Some (s2l "work")))) None)])]); (mklib (Some (s2l "aux")) None [])]).
 
 (* ---------- witnesses of the soundness / completeness theorems (corpus/cmp/c20-perm.json,
-   c20-pin-order.json, c20-lower-index.json, c20-double.json) ---------- *)
+   c20-pin-order.json: the pins of one wire in the other order, c20-lower-index.json,
+   c20-double.json) ---------- *)
 Definition w_perm : nv :=
   (mknv (Some (s2l "n")) None (Some (mkinst (Some (s2l "top")) None (Some ((Some (s2l "top")), (Some (s2l "work")))) None)) [(mklib (Some (s2l "aux")) None []); (mklib (Some (s2l "work")) None [(mkdefn (Some (s2l "top")) None [(mkport (Some (s2l "i")) None DIn false 1 (0)%Z)] [(mkcable (Some (s2l "k")) None [[(POut (Some (s2l "u0")) (Some (s2l "b")) 0); (POut (Some (s2l "u1")) (Some (s2l "a")) 0)]; []]); (mkcable (Some (s2l "c")) None [[(PIn (Some (s2l "i")) 0); (POut (Some (s2l "u0")) (Some (s2l "a")) 0)]])] [(mkinst (Some (s2l "u1")) None (Some ((Some (s2l "LEAF")), (Some (s2l "work")))) None); (mkinst (Some (s2l "u0")) None (Some ((Some (s2l "LEAF")), (Some (s2l "work")))) (Some [[((s2l "identifier"), (PStr (s2l "INIT"))); ((s2l "value"), (PStr (s2l "abc")))]]))]); (mkdefn (Some (s2l "LEAF")) None [(mkport (Some (s2l "b")) None DOut true 2 (0)%Z); (mkport (Some (s2l "a")) None DIn false 1 (0)%Z)] [] []); (mkdefn (Some (s2l "LEAF2")) None [(mkport (Some (s2l "a")) None DIn false 1 (0)%Z); (mkport (Some (s2l "b")) None DOut true 2 (0)%Z)] [] [])])]).
 
@@ -108,6 +109,14 @@ Definition w_lower : nv :=
 
 Definition w_double : nv :=
   (mknv (Some (s2l "n")) None (Some (mkinst (Some (s2l "top")) None (Some ((Some (s2l "top")), (Some (s2l "work")))) None)) [(mklib (Some (s2l "work")) None [(mkdefn (Some (s2l "LEAF")) None [(mkport (Some (s2l "a")) None DOut false 1 (0)%Z); (mkport (Some (s2l "b")) None DOut true 2 (0)%Z)] [] []); (mkdefn (Some (s2l "LEAF2")) None [(mkport (Some (s2l "a")) None DIn false 1 (0)%Z); (mkport (Some (s2l "b")) None DOut true 2 (0)%Z)] [] []); (mkdefn (Some (s2l "top")) None [(mkport (Some (s2l "i")) None DIn false 1 (0)%Z)] [(mkcable (Some (s2l "c")) None [[(PIn (Some (s2l "i")) 0); (POut (Some (s2l "u0")) (Some (s2l "a")) 0)]]); (mkcable (Some (s2l "k")) None [[(POut (Some (s2l "u0")) (Some (s2l "b")) 0); (POut (Some (s2l "u1")) (Some (s2l "a")) 0)]; []])] [(mkinst (Some (s2l "u0")) None (Some ((Some (s2l "LEAF")), (Some (s2l "work")))) (Some [[((s2l "identifier"), (PStr (s2l "INIT"))); ((s2l "value"), (PStr (s2l "abc")))]])); (mkinst (Some (s2l "u1")) None (Some ((Some (s2l "LEAF2")), (Some (s2l "work")))) None)])]); (mklib (Some (s2l "aux")) None [])]).
+
+(* ---------- two assignment-style instances of the same width with different references on one
+   wire, and the same wire listed in the other order (corpus/cmp/c20-asg-pin-order.json) ---------- *)
+Definition w_asg3 : nv :=
+  (mknv (Some (s2l "n")) None (Some (mkinst (Some (s2l "top")) None (Some ((Some (s2l "top")), (Some (s2l "work")))) None)) [(mklib (Some (s2l "work")) None [(mkdefn (Some (s2l "LEAF")) None [(mkport (Some (s2l "a")) None DIn false 1 (0)%Z); (mkport (Some (s2l "b")) None DOut true 2 (0)%Z)] [] []); (mkdefn (Some (s2l "LEAF2")) None [(mkport (Some (s2l "a")) None DIn false 1 (0)%Z); (mkport (Some (s2l "b")) None DOut true 2 (0)%Z)] [] []); (mkdefn (Some (s2l "top")) None [(mkport (Some (s2l "i")) None DIn false 1 (0)%Z)] [(mkcable (Some (s2l "c")) None [[(PIn (Some (s2l "i")) 0); (POut (Some (s2l "u0")) (Some (s2l "a")) 0)]]); (mkcable (Some (s2l "k")) None [[(POut (Some (s2l "u0")) (Some (s2l "b")) 0); (POut (Some (s2l "u1")) (Some (s2l "a")) 0)]; []]); (mkcable (Some (s2l "z")) None [[(POut (Some (s2l "SDN_Assignment_0_1")) (Some (s2l "a")) 0); (POut (Some (s2l "SDN_Assignment_1_1")) (Some (s2l "a")) 0)]])] [(mkinst (Some (s2l "u0")) None (Some ((Some (s2l "LEAF")), (Some (s2l "work")))) (Some [[((s2l "identifier"), (PStr (s2l "INIT"))); ((s2l "value"), (PStr (s2l "abc")))]])); (mkinst (Some (s2l "u1")) None (Some ((Some (s2l "LEAF")), (Some (s2l "work")))) None); (mkinst (Some (s2l "SDN_Assignment_0_1")) None (Some ((Some (s2l "LEAF")), (Some (s2l "work")))) None); (mkinst (Some (s2l "SDN_Assignment_1_1")) None (Some ((Some (s2l "LEAF2")), (Some (s2l "work")))) None)])]); (mklib (Some (s2l "aux")) None [])]).
+
+Definition w_asg3_swapped : nv :=
+  (mknv (Some (s2l "n")) None (Some (mkinst (Some (s2l "top")) None (Some ((Some (s2l "top")), (Some (s2l "work")))) None)) [(mklib (Some (s2l "work")) None [(mkdefn (Some (s2l "LEAF")) None [(mkport (Some (s2l "a")) None DIn false 1 (0)%Z); (mkport (Some (s2l "b")) None DOut true 2 (0)%Z)] [] []); (mkdefn (Some (s2l "LEAF2")) None [(mkport (Some (s2l "a")) None DIn false 1 (0)%Z); (mkport (Some (s2l "b")) None DOut true 2 (0)%Z)] [] []); (mkdefn (Some (s2l "top")) None [(mkport (Some (s2l "i")) None DIn false 1 (0)%Z)] [(mkcable (Some (s2l "c")) None [[(PIn (Some (s2l "i")) 0); (POut (Some (s2l "u0")) (Some (s2l "a")) 0)]]); (mkcable (Some (s2l "k")) None [[(POut (Some (s2l "u0")) (Some (s2l "b")) 0); (POut (Some (s2l "u1")) (Some (s2l "a")) 0)]; []]); (mkcable (Some (s2l "z")) None [[(POut (Some (s2l "SDN_Assignment_1_1")) (Some (s2l "a")) 0); (POut (Some (s2l "SDN_Assignment_0_1")) (Some (s2l "a")) 0)]])] [(mkinst (Some (s2l "u0")) None (Some ((Some (s2l "LEAF")), (Some (s2l "work")))) (Some [[((s2l "identifier"), (PStr (s2l "INIT"))); ((s2l "value"), (PStr (s2l "abc")))]])); (mkinst (Some (s2l "u1")) None (Some ((Some (s2l "LEAF")), (Some (s2l "work")))) None); (mkinst (Some (s2l "SDN_Assignment_0_1")) None (Some ((Some (s2l "LEAF")), (Some (s2l "work")))) None); (mkinst (Some (s2l "SDN_Assignment_1_1")) None (Some ((Some (s2l "LEAF2")), (Some (s2l "work")))) None)])]); (mklib (Some (s2l "aux")) None [])]).
 
 
 Local Close Scope string_scope.
